@@ -193,3 +193,72 @@ Definition chk_order_stat (h : hist Qc) (qs : list (Z * Z)) (expected : list (re
 Definition chk_exactly (h : hist Qc) (o : Qc) (n k : nat) (expected : Z) : bool := exactly_k VO h o n k =? expected.
 Definition chk_appearances (dice : list (hist Qc)) (o : Qc) (expected : hist Z) : bool :=
   zhist_eqb (appearances VO (mkP VO dice) o) expected.
+
+(* ---- C06 / C07 / C08 / C14: evaluation ---- *)
+From Dyce Require Export Model.Eval Model.Explode.
+Definition lift_h (r : res (hist Qc)) : res (val (T:=Qc)) := match r with Ok h => Ok (VHist h) | Err e => Err e end.
+(* Python's `a + b` on callback values *)
+Definition vadd (a b : val (T:=Qc)) : res (val (T:=Qc)) :=
+  match a, b with
+  | VOut x, VOut y => Ok (VOut (x + y)%Qc)
+  | VHist h, VOut y => lift_h (hmap_s VO (binop Add) h y)
+  | VOut x, VHist h => lift_h (hrmap VO (binop Add) x h)
+  | VHist h1, VHist h2 => lift_h (hmap VO (binop Add) h1 h2)
+  end.
+Definition vaddc (c : Qc) (v : val (T:=Qc)) : res (val (T:=Qc)) := vadd v (VOut c).
+Definition coalesce_replace (v : val (T:=Qc)) (_ : Qc) : res (val (T:=Qc)) := Ok v.
+Definition coalesce_add (v : val (T:=Qc)) (o : Qc) : res (val (T:=Qc)) := vadd v (VOut o).
+
+Definition results_eqb (a b : list (list Qc)) : bool := list_eqb (list_eqb Veqb) a b.
+Definition mechT := list (list (source (T:=Qc)) * hist Qc * list (list (list Qc) * ret (T:=Qc) (St:=nat))).
+Definition mech_srcs (m : mechT) (st : nat) : list (source (T:=Qc)) :=
+  match nth_error m st with Some (s, _, _) => s | None => [] end.
+Definition mech_sent (m : mechT) (st : nat) : hist Qc :=
+  match nth_error m st with Some (_, s, _) => s | None => [] end.
+Definition mech_cb (m : mechT) (st : nat) (rs : list (list Qc)) : ret (T:=Qc) (St:=nat) :=
+  match nth_error m st with
+  | Some (_, _, tbl) => match find (fun e => results_eqb (fst e) rs) tbl with
+                        | Some e => snd e
+                        | None => ROut (qc 0 1)       (* results the table does not list *)
+                        end
+  | None => RRaise (UserError 98)
+  end.
+Definition FUEL : nat := 400.
+Fixpoint run_calls (m : mechT) (fault : option nat) (s : evstate) (calls : list (nat * option rawlimit))
+  : list (res (hist Qc)) :=
+  match calls with
+  | [] => []
+  | (st, lim) :: cs =>
+      let '(s', r) := call VO Vzero (mech_srcs m) (mech_sent m) (mech_cb m) fault FUEL s st lim in
+      r :: run_calls m fault s' cs
+  end.
+Definition any_unsupported (l : list (res (hist Qc))) : bool :=
+  existsb (fun r => match r with Err Unsupported => true | _ => false end) l.
+Definition chk_mech (m : mechT) (fault : option nat) (calls : list (nat * option rawlimit))
+           (expected : list (res (hist Qc))) : nat :=
+  let got := run_calls m fault (None, 0%nat) calls in
+  if any_unsupported got then 2%nat else cb (list_eqb (res_eqb cnt_eqb) got expected).
+
+Definition subset_pred (sub : list Qc) (o : Qc) (_ : hist Qc) : bool := existsb (Veqb o) sub.
+Definition chk_explode (h : hist Qc) (sub : list Qc) (lim : option rawlimit) (infv : option Qc)
+           (expected : res (hist Qc)) : nat :=
+  cres_code cnt_eqb
+    (explode VO Vzero vadd FUEL h (subset_pred sub) lim qzero
+             (fun o => match infv with Some v => Some (v * o)%Qc | None => None end)) expected.
+Definition expand_of (tbl : list (Qc * val (T:=Qc))) (_ : hist Qc) (o : Qc) : val (T:=Qc) :=
+  match find (fun e => Veqb (fst e) o) tbl with Some e => snd e | None => VOut o end.
+Definition chk_substitute (h : hist Qc) (tbl : list (Qc * val (T:=Qc))) (use_add : bool)
+           (md pl : option rawlimit) (expected : res (hist Qc)) : nat :=
+  cres_code cnt_eqb
+    (substitute VO Vzero FUEL h (expand_of tbl) (if use_add then coalesce_add else coalesce_replace) md pl) expected.
+Definition maxQ (h : hist Qc) : option Qc := match rev h with [] => None | oc :: _ => Some (fst oc) end.
+Definition chk_h_explode (h : hist Qc) (md pl : option rawlimit) (expected : res (hist Qc)) : nat :=
+  cres_code cnt_eqb (h_explode VO Vzero vadd FUEL maxQ h md pl) expected.
+Definition chk_p_foreach (pools : list (list (hist Qc))) (tbl : list (list (list Qc) * val (T:=Qc)))
+           (expected : res (hist Qc)) : nat :=
+  cres_code cnt_eqb
+    (p_foreach VO Vzero (map (mkP VO) pools)
+       (fun rs => match find (fun e => results_eqb (fst e) rs) tbl with
+                  | Some e => Ok (snd e) | None => Ok (VOut (qc 0 1)) end)) expected.
+Definition chk_aggw (ws : list (val (T:=Qc) * Z)) (expected : res (hist Qc)) : nat :=
+  cres_code hist_eqb (aggw VO ws) expected.
